@@ -84,13 +84,24 @@ package snap
 //@ func reverseWindingOrderIfConfigured
 //@   modifies polygons
 //@   loop i as pi
-//@     invariant len(polygons) == old(len(polygons))
+//@     invariant len(polygons) == old(len(polygons)) && config.ReverseWindingOrder
 //@     invariant forall(a Int, 0 <= a && a < len(polygons) ==> len(polygons[a]) == old(len(polygons[a])), trigger(polygons[a]))
+//@     invariant forall(a Int, b Int, 0 <= a && a < len(polygons) && 0 <= b && b < len(polygons[a]) ==> len(polygons[a][b]) == old(len(polygons[a][b])), trigger(polygons[a][b]))
+//@     invariant forall(a Int, b Int, pi < a && a < len(polygons) && 0 <= b && b < len(polygons[a]) ==> polygons[a][b] == old(polygons[a][b]), trigger(polygons[a][b]))
+//@     invariant forall(a Int, b Int, k Int, 0 <= a && a <= pi && 0 <= b && b < len(polygons[a]) && 0 <= k && k < len(polygons[a][b]) ==> polygons[a][b][k] == old(polygons[a][b][len(polygons[a][b]) - 1 - k]), trigger(polygons[a][b][k]))
 //@   loop j as pj
-//@     invariant len(polygons) == old(len(polygons)) && 0 <= pi + 1 && pi + 1 < len(polygons)
+//@     invariant len(polygons) == old(len(polygons)) && 0 <= pi + 1 && pi + 1 < len(polygons) && config.ReverseWindingOrder
 //@     invariant forall(a Int, 0 <= a && a < len(polygons) ==> len(polygons[a]) == old(len(polygons[a])), trigger(polygons[a]))
+//@     invariant forall(a Int, b Int, 0 <= a && a < len(polygons) && 0 <= b && b < len(polygons[a]) ==> len(polygons[a][b]) == old(len(polygons[a][b])), trigger(polygons[a][b]))
+//@     invariant forall(a Int, b Int, pi + 1 < a && a < len(polygons) && 0 <= b && b < len(polygons[a]) ==> polygons[a][b] == old(polygons[a][b]), trigger(polygons[a][b]))
+//@     invariant forall(a Int, b Int, a == pi + 1 && pj < b && b < len(polygons[a]) ==> polygons[a][b] == old(polygons[a][b]), trigger(polygons[a][b]))
+//@     invariant forall(a Int, b Int, k Int, 0 <= a && a <= pi && 0 <= b && b < len(polygons[a]) && 0 <= k && k < len(polygons[a][b]) ==> polygons[a][b][k] == old(polygons[a][b][len(polygons[a][b]) - 1 - k]), trigger(polygons[a][b][k]))
+//@     invariant forall(a Int, b Int, k Int, a == pi + 1 && 0 <= b && b <= pj && 0 <= k && k < len(polygons[a][b]) ==> polygons[a][b][k] == old(polygons[a][b][len(polygons[a][b]) - 1 - k]), trigger(polygons[a][b][k]))
 //@   ensures[C05,C06] len(polygons) == old(len(polygons))
 //@   ensures[C05,C06] forall(a Int, 0 <= a && a < len(polygons) ==> len(polygons[a]) == old(len(polygons[a])), trigger(polygons[a]))
+//@   ensures[C05] !config.ReverseWindingOrder ==> polygons == old(polygons)
+//@   ensures[C05] config.ReverseWindingOrder ==> forall(a Int, b Int, 0 <= a && a < len(polygons) && 0 <= b && b < len(polygons[a]) ==> len(polygons[a][b]) == old(len(polygons[a][b])), trigger(polygons[a][b]))
+//@   ensures[C05] config.ReverseWindingOrder ==> forall(a Int, b Int, k Int, 0 <= a && a < len(polygons) && 0 <= b && b < len(polygons[a]) && 0 <= k && k < len(polygons[a][b]) ==> polygons[a][b][k] == old(polygons[a][b][len(polygons[a][b]) - 1 - k]), trigger(polygons[a][b][k]))
 
 // C05 / C08 / C03: what addPointsAndSnap guarantees about the SHAPE of its result (which levels are present, none
 // with an empty list); the rings themselves come from the unverified ring assembly. It may panic (ring assembly,
